@@ -277,6 +277,7 @@ pub(crate) mod tokio_shim {
     pub use ::tokio::*;
 
     /// See [`::tokio::spawn`].
+    #[allow(dead_code)]
     pub fn spawn<F>(fut: F) -> ::tokio::task::JoinHandle<F::Output>
     where
         F: Future + Send + 'static,
